@@ -6,7 +6,7 @@ Outcome(kind) ==
                  "class_module_removed", "local_scope", "class_module_removed_ret", "arg_class_removed_2",
                  "arg_module_removed_name_prefix"} -> "NameLookupError"
     [] kind \in {"now_nonfunction", "now_class", "now_settable_property", "class_now_nontype", "class_now_nontype_ret",
-                 "dunder_removed", "dunder_removed_2"} -> "InvalidTypeError"
+                 "dunder_removed", "dunder_removed_2", "now_builtin", "now_bound_builtin"} -> "InvalidTypeError"
     [] kind = "nowraps" -> "ok_but_poisoned"
     [] OTHER -> "ok"
 DecodableKind(kind) == Outcome(kind) \in {"ok", "ok_but_poisoned"}
